@@ -16,6 +16,6 @@ YOUR TASK: produce ONE realistic change to the library source (the kind of mista
 
 DELIVER, inside {d}:
 1. the change applied to the working tree (uncommitted), and `git diff > {d}/seed_patch.diff`;
-2. a demonstration `{d}/seed_demo.c` (or .cpp): a small standalone program using the library's API (include headers from {d}/htp, e.g. "htp/htp_private.h" for internal functions; build it like `gcc -std=gnu99 -D_GNU_SOURCE -I{d} -I{d}/htp seed_demo.c {d}/htp/.libs/libhtp.a -lz -o seed_demo` after `make`) that exits 0 and prints PASS when the property holds on its input and exits 1 and prints FAIL when it does not; it must FAIL with your change and PASS without it (verify both: `git stash` / `git stash pop`, rebuilding each time) — put the exact build+run commands in a comment at the top of the file;
+2. a demonstration `{d}/seed_demo.c` (or .cpp): a small standalone program using the library's API (include headers from {d}/htp, e.g. "htp/htp_private.h" for internal functions; build it like `gcc -std=gnu99 -D_GNU_SOURCE -I{d} -I{d}/htp seed_demo.c {d}/htp/.libs/libhtp.a -lz -o seed_demo` after `make`) that exits 0 and prints PASS when the property holds on its input and exits 1 and prints FAIL when it does not; it must FAIL with your change and PASS without it (verify both, rebuilding each time; do NOT use `git stash` — the stash is shared between worktrees of other people working in parallel — use `git diff > seed_patch.diff; git apply -R seed_patch.diff` to remove your change and `git apply seed_patch.diff` to put it back) — put the exact build+run commands in a comment at the top of the file;
 3. `{d}/seed_meta.json`: {{"property": "{pid}", "summary": "...what was changed...", "needs": "...what specific input/sequence/boundary is needed for the violation to manifest...", "why_tests_pass": "...", "commands": ["...what you ran..."], "tests_pass_with_change": true, "demo_fails_with_change": true, "demo_passes_without_change": true}}.
 Confirm `make check` passes with the change (look for "[  PASSED  ] 341 tests." in test/test_all.log). Leave the worktree with the change APPLIED. Final answer: a 5-line summary (files touched, what breaks, what input shows it).""")
